@@ -253,10 +253,27 @@ def run_family(res, cfgname, select=None, tag=None, layer=WORKER):
     return out
 
 
+def claimers(family):
+    """which checks run this family in their quick tier (so that no label can fall between checks)"""
+    f = str(family)
+    if "Dup" in f:
+        return {"C16", "C01"}
+    if "Wrap" in f or "wrap" in f:
+        return {"C15", "C01", "C02"}
+    if f.startswith(("MC_Send", "MC_Recv", "random-", "recv-bigflush")):
+        return {"C01", "C02", "C04", "C07", "C08", "C13"}
+    return set()
+
+
 def file_records(res, records):
-    """Files each deviation under the properties its label names."""
+    """Files each deviation under the properties its label names; a deviation whose label names no
+    check that runs this family is filed by every check that does (nothing falls between checks)."""
     for r in records:
         props, name = label_props(r["label"])
+        if "X" not in props and res.prop not in props and claimers(r["family"]) and not (props & claimers(r["family"])) \
+                and res.prop in claimers(r["family"]):
+            props = props | {res.prop}
+            name = "Unclaimed:" + name
         cfg = r["cfg"]
         sig = "%s|%s|role=%s W=%s NB=%s R=%s chk=%s base0=%s|sid=%s" % (
             name, r["family"], cfg.get("role"), cfg.get("W"), cfg.get("NB"), cfg.get("R"), cfg.get("chk"),
